@@ -81,12 +81,11 @@ def configs(tier):
     add(kind="bus", width=2, timeout=12, r=1)
     add(kind="asyncfifo", depth=4, dw=1, r=2)
     if tier == "thorough":
-        add(kind="asyncfifo", depth=4, dw=1)
+        add(kind="asyncfifo", depth=4, dw=1, r=3)
         add(kind="bus", width=2, timeout=24, r=2)
         add(kind="bus", width=3, timeout=12, r=1, dset=(0, 7, 5))
-        add(kind="asyncfifo", depth=4, dw=1, buffered=True)
-        add(kind="cdc", depth=4, dw=1)
-        add(kind="cdc", depth=8, dw=1)
+        add(kind="asyncfifo", depth=4, dw=1, buffered=True, r=2)
+        add(kind="cdc", depth=4, dw=1, r=2)
     return L
 
 
